@@ -963,21 +963,40 @@ func runC04LL1(c *Ctx) {
 		a := m.nts[key]
 		var ctx kindset
 		fmt.Sscanf(key[strings.Index(key, "|")+1:], "%d", &ctx)
-		i := 0
 		var nodes []int
 		for n := range a.accepts {
 			nodes = append(nodes, n)
 		}
 		sort.Ints(nodes)
-		for _, n := range nodes {
-			i++
-			r := a.accepts[n]
-			construct := fmt.Sprintf("(*ExprParser).%s|return#%d (look-ahead %s)", fnName, i, m.tk.str(ctx))
-			missing := follow[fnName] &^ r
+		// One return statement is reached through several accepting nodes when the tokens it returns for are told apart
+		// before it (a case clause with several kinds: one node per kind). What the statement returns for is the union
+		// over its nodes; it is numbered by the first of them.
+		type retStmt struct {
+			no  int
+			pos token.Pos
+			la  kindset
+		}
+		var rets []*retStmt
+		byPos := map[token.Pos]*retStmt{}
+		for i, n := range nodes {
+			pos := a.pos[n]
+			if r := byPos[pos]; r != nil && pos.IsValid() {
+				r.la |= a.accepts[n]
+				continue
+			}
+			r := &retStmt{no: i + 1, pos: pos, la: a.accepts[n]}
+			rets = append(rets, r)
+			if pos.IsValid() {
+				byPos[pos] = r
+			}
+		}
+		for _, r := range rets {
+			construct := fmt.Sprintf("(*ExprParser).%s|return#%d (look-ahead %s)", fnName, r.no, m.tk.str(ctx))
+			missing := follow[fnName] &^ r.la
 			if missing == 0 {
-				c.ok(construct, a.pos[n], "returns for every token that may follow (look-ahead at the return: "+m.tk.str(r)+")")
+				c.ok(construct, r.pos, "returns for every token that may follow (look-ahead at the return: "+m.tk.str(r.la)+")")
 			} else {
-				c.bad(construct, a.pos[n], "the function does not return here when the next token is "+m.tk.str(missing)+" although that token may follow the construct: sentences of the grammar are rejected or parsed differently")
+				c.bad(construct, r.pos, "the function does not return here when the next token is "+m.tk.str(missing)+" although that token may follow the construct: sentences of the grammar are rejected or parsed differently")
 			}
 		}
 	}
